@@ -4,6 +4,7 @@ the non-vacuity examples and the witnesses of Thm/C04.lean.
 -/
 import MsVerif.Lemmas.LexEncode
 import MsVerif.Lemmas.DecodeEncode
+import MsVerif.Lemmas.DecodeCanon
 
 namespace MsVerif
 namespace Toy
@@ -38,6 +39,91 @@ def m2 : Ms :=
 /-- did the decoder return exactly `m` and consume all tokens? -/
 def okIs (r : Except DecodeErr (Ms × List Token)) (m : Ms) : Bool :=
   match r with | .ok (x, []) => x == m | _ => false
+
+/-! ### a SOUND reverse lookup for `env` (only byte strings that are serialisations are atoms) -/
+
+def decS : AtomDec where
+  full bs := match second bs with
+    | some k => if env.ser k = bs then .ok k else .invalid
+    | none => .invalid
+  xonly _ := .invalid
+  rawPkh bs := match bs.head? with
+    | some b => if env.rawPkh b.toNat = bs then some b.toNat else none
+    | none => none
+  hash kind bs := match bs.head? with
+    | some b => if env.hashVal kind b.toNat = bs then some b.toNat else none
+    | none => none
+
+theorem decS_sound (ctx : Ctx) : DecSound decS env ctx where
+  key := by
+    intro bs k h
+    unfold parseKey at h
+    dsimp only at h
+    have hfull : ∀ {bs : Bytes} {k : Key}, decS.full bs = .ok k → env.ser k = bs := by
+      intro bs k h
+      simp only [decS] at h
+      split at h
+      · split at h
+        · rename_i k' _ he; cases h; exact he
+        · cases h
+      · cases h
+    cases ctx <;> simp only at h
+    case tap =>
+      split at h
+      · rename_i hx; split at hx <;> simp [decS] at hx
+      · cases h
+      · cases h
+    all_goals
+      split at h
+      · rename_i k' hx
+        cases h
+        repeat' split at hx
+        all_goals first
+          | exact hfull hx
+          | cases hx
+      · cases h
+      · cases h
+  rawPkh := by
+    intro bs h hh
+    simp only [decS] at hh
+    split at hh
+    · split at hh
+      · rename_i he; cases hh; exact he
+      · cases hh
+    · cases hh
+  hash := by
+    intro kind bs h hh
+    simp only [decS] at hh
+    split at hh
+    · split at hh
+      · rename_i he; cases hh; exact he
+      · cases hh
+    · cases hh
+
+/-- `andor(pk(1),thresh(2,pk(2),s:pk(3),a:sha256(4)),or_d(multi(2,5,6,7),and_v(v:hash160(8),older(144))))` -/
+def m3 : Ms :=
+  .andOr (pk 1)
+    (.thresh 2 (.cons (pk 2) (.cons (.swap (pk 3)) (.cons (.alt (.hash .sha256 4)) .nil))))
+    (.orD (.multi 2 [5, 6, 7]) (.andV (.verify (.hash .hash160 8)) (.older 144)))
+
+/-- x-only keys for Taproot: `kk…k` (32 bytes) -/
+def envX : KeyEnv where
+  ser k := List.replicate 32 (UInt8.ofNat k)
+  sortKey k := List.replicate 32 (UInt8.ofNat k)
+  pkh k := List.replicate 20 (UInt8.ofNat k)
+  rawPkh h := List.replicate 20 (UInt8.ofNat h)
+  hashVal kind h := List.replicate (hashLen kind) (UInt8.ofNat h)
+
+def decX : AtomDec where
+  full _ := .invalid
+  xonly bs := match bs.head? with | some b => .ok b.toNat | none => .unknown
+  rawPkh bs := bs.head?.map (·.toNat)
+  hash _ bs := bs.head?.map (·.toNat)
+
+/-- `and_v(v:multi_a(2,1,2,3),or_i(after(500000),and_v(v:pk(4),ripemd160(9))))` (Taproot) -/
+def m4 : Ms :=
+  .andV (.verify (.multiA 2 [1, 2, 3]))
+    (.orI (.after 500000) (.andV (.verify (.check (.pkK 4))) (.hash .ripemd160 9)))
 
 end Toy
 end MsVerif
